@@ -27,5 +27,13 @@ def handle (toks : List String) : String :=
       let (a, b, c, d) := constsF shape os (ratToFloat w)
       s!"ok {fmtIntList (osShape os shape)} {a.toBits.toNat} {b.toBits.toNat} {c.toBits.toNat} {d.toBits.toNat}"
     | _, _, _ => "err bad-op"
+  | some "kernelsum" =>
+    -- one point on one axis: L, kappa, wrapped grid indices and kernel arguments of the generated interpolation
+    match getR "os", getI "n", getR "c", getR "width" with
+    | some os, some n, some c, some w =>
+      if n ≤ 0 ∨ w ≤ 0 then "err bad-op" else
+      let (L, κ, l) := kernelArgs os n c w
+      s!"ok {L} {fmtRat κ} {fmtIntList (l.map (·.1))} {fmtRatList (l.map (·.2))}"
+    | _, _, _, _ => "err bad-op"
   | _ => "err bad-op"
 end SigpyVerif.Drv.C06
